@@ -10,6 +10,8 @@
 package main
 
 import (
+	"crypto/sha1"
+	"encoding/hex"
 	"encoding/json"
 	"fmt"
 	"os"
@@ -57,7 +59,9 @@ type childReport struct {
 // harnessDir: where the sources of this harness are (the driver builds from a copy when VERIF_REPO is set).
 func harnessDir() string {
 	if r := os.Getenv("VERIF_REPO"); r != "" && r != "/repo" {
-		return "/verif/build/alt-harness"
+		// lib/verifcheck.py prepare_go_dir: build/alt-<first 8 hex digits of sha1(VERIF_REPO)>-harness
+		h := sha1.Sum([]byte(r))
+		return "/verif/build/alt-" + hex.EncodeToString(h[:])[:8] + "-harness"
 	}
 	return "/verif/harness"
 }
@@ -281,7 +285,7 @@ func runC19(ctx *common.Ctx) error {
 			}
 		}
 		for k, v := range cr.Stats {
-			if strings.HasPrefix(k, "cmd:") || strings.HasPrefix(k, "end:") || k == "push" || k == "sessions" {
+			if strings.HasPrefix(k, "cmd:") || strings.HasPrefix(k, "end:") || strings.HasPrefix(k, "parked") || k == "push" || k == "sessions" {
 				res.Distribution[k] += v
 			}
 			if strings.HasPrefix(k, "log: ") && !strings.Contains(k, "Command failed") {
